@@ -279,13 +279,22 @@ def frontends(run, rng, n):
             pending = [("delete", "b2"), ("delete", "a1"), ("add", "a1"), ("delete", "a2"), ("add", "a2")]
             # (a call that raises becomes an 'apierror' event, which no action of the specification allows)
             ok, aw = w.guarded(aname, "AsyncWriter", lambda: writing.AsyncWriter(_IndexProxy(w, aname, pending), delay=0.01))
+            # when the lock holder commits: after the AsyncWriter's commit() (which then retries in its own
+            # thread), just before it, or in the middle of the calls it is buffering
+            variant = i % 3
+            cfg = dict(cfg, holder_commits=["after", "before-commit", "mid-session"][variant])
             if ok:
                 w.guarded(aname, "AsyncWriter.delete_by_term", lambda: aw.delete_by_term("key", u"b2"))
+                if variant == 2:
+                    w.guarded(hname, "commit", lambda: holder.commit(optimize=True))
                 w.guarded(aname, "AsyncWriter.update_document", lambda: aw.update_document(key=u"a1", body=u"x"))
                 w.guarded(aname, "AsyncWriter.update_document", lambda: aw.update_document(key=u"a2", body=u"x"))
-                w.guarded(aname, "AsyncWriter.commit", aw.commit)      # lock is held: retries in its own thread
-            time.sleep(rng.choice([0.0, 0.03]))
-            w.guarded(hname, "commit", lambda: holder.commit(optimize=True))
+                if variant == 1:
+                    w.guarded(hname, "commit", lambda: holder.commit(optimize=True))
+                w.guarded(aname, "AsyncWriter.commit", aw.commit)
+            if variant == 0 or not ok:
+                time.sleep(rng.choice([0.0, 0.03]))
+                w.guarded(hname, "commit", lambda: holder.commit(optimize=True))
             if ok and aw.is_alive():
                 aw.join(60)
             # BufferedWriter holds the lock for its life time
